@@ -490,7 +490,13 @@ int driver_main(int argc, char **argv, Engine &e) {
             for (uint64_t i = w; i < runs; i += workers) {
                 if (now_s() - t_start > wall_cap) break;
                 std::string plan = e.gen(e.property, seed, i, thorough);
+                double tr0 = now_s();
                 RunResult r = run_plan_in_child(e, plan, false);
+                {   // wall-clock per stratum (engines label runs with a "scen.<name>" counter)
+                    uint64_t us = (uint64_t)((now_s() - tr0) * 1e6);
+                    for (auto &c : r.counters)
+                        if (c.first.compare(0, 5, "scen.") == 0) { r.counters["wall_us." + c.first.substr(5)] = us; break; }
+                }
                 // determinism sample: every 50th run is executed a second time
                 if (i % 50 == 7 % 50) {
                     RunResult r2 = run_plan_in_child(e, plan, false);
